@@ -316,3 +316,64 @@ func classifyC06a(steps []dbStep, msg string) string {
 
 var _ = bytes.Equal
 var _ = os.Remove
+
+// ---- s-expression of a database program with its observations (Corr/DB.v)
+
+func genOf(name string) uint64 {
+	var g uint64
+	fmt.Sscanf(name, simpledb.SSTablePattern, &g)
+	return g
+}
+
+func sxTables(ts []tblInfo) string {
+	var xs []string
+	for _, t := range ts {
+		xs = append(xs, sxL(sxN(genOf(t.Name)), sxN(t.Num), sxN(t.Nulls)))
+	}
+	return sxList(xs)
+}
+
+// returns "" when the program contains something the logical model does not cover
+func sxDbProgram(opts dbOpts, steps []dbStep, sweeps [][]dbStep, sweepBeforeCompact bool) string {
+	cur := opts
+	var xs, sws []string
+	for i := range steps {
+		s := &steps[i]
+		if len(s.Err) > 6 && (s.Err[:6] == "Other:" || s.Err[:6] == "Panic:") {
+			return ""
+		}
+		switch s.Op {
+		case "put", "putb":
+			xs = append(xs, sxL("n0", sxOBn(s.K, s.KNil), sxOBn(s.V, s.VNil), sxBool(s.Err == "")))
+		case "del", "delb":
+			xs = append(xs, sxL("n1", sxOBn(s.K, s.KNil), sxBool(s.Err == "")))
+		case "get", "getb":
+			xs = append(xs, sxL("n2", sxB(s.key()), sxOBn(s.Val, !s.Found)))
+		case "rotate":
+			xs = append(xs, sxL("n3", sxTables(s.Tables)))
+		case "compact":
+			var sizes, sel []string
+			for _, t := range s.Before {
+				sizes = append(sizes, sxN(t.Bytes))
+			}
+			for _, n := range s.Selected {
+				sel = append(sel, sxN(genOf(n)))
+			}
+			cfg := sxL(sxI(cur.Threshold), sxN(cur.MaxSize), sxI(cur.RatioPct))
+			xs = append(xs, sxL("n4", cfg, sxList(sizes), sxList(sel), sxTables(s.Tables)))
+		case "reopen":
+			if s.Opts != nil {
+				cur = *s.Opts
+			}
+			xs = append(xs, sxL("n5", sxTables(s.Tables)))
+		}
+	}
+	for _, sw := range sweeps {
+		var ps []string
+		for _, g := range sw {
+			ps = append(ps, sxL(sxB(g.key()), sxOBn(g.Val, !g.Found)))
+		}
+		sws = append(sws, sxList(ps))
+	}
+	return sxL(sxList(xs), sxList(sws), "()", sxBool(sweepBeforeCompact))
+}
